@@ -2,7 +2,7 @@ SPECIFICATION Spec
 CONSTANTS
   VerifyBeforeFormula = TRUE
   ResetRecurses = TRUE
-  ResetStopsAtUncached = FALSE
+  ResetStopsAtUncached = TRUE
   PowerShortCircuitChecksExponent = TRUE
   AccumulatorAdds = TRUE
   ResetOnAt = TRUE
@@ -10,9 +10,8 @@ CONSTANTS
   ResetOnNumericPartials = TRUE
   EarlyChecksOriginal = TRUE
   ResetAfterWalk = FALSE
-  MaxHist = 40
+  MaxHist = 0
 VIEW View
 INVARIANT AllProperties
-INVARIANT ExportState
 PROPERTY OperandsUnchanged
 CHECK_DEADLOCK FALSE
